@@ -563,6 +563,31 @@ func ruleC12(w *World, r *Report) {
 			}
 			s := symOf(ifi.Cond).String()
 			okCond := strings.Contains(s, "enableHBTimer") || isTypeAssertOK(ifi.Cond) || isSelectIndexTest(ifi.Cond)
+			// the verdict of one of the handler's own literals that decides on nothing but its select
+			// (did the non-blocking signal go through?) is no precondition either
+			if !okCond {
+				cv := ifi.Cond
+				if u, ok := cv.(*ssa.UnOp); ok && u.Op == token.NOT {
+					cv = u.X
+				}
+				if c, ok := cv.(*ssa.Call); ok {
+					var lit *ssa.Function
+					if mc, ok := c.Call.Value.(*ssa.MakeClosure); ok {
+						lit, _ = mc.Fn.(*ssa.Function)
+					} else if f, ok := c.Call.Value.(*ssa.Function); ok {
+						lit = f
+					}
+					if lit != nil && lit.Parent() == hbHandler {
+						only := true
+						for _, lb := range lit.Blocks {
+							if li := blockIf(lb); li != nil && !isSelectIndexTest(li.Cond) {
+								only = false
+							}
+						}
+						okCond = only
+					}
+				}
+			}
 			r.check(okCond, "R12.5", hn, "heartbeat answered without preconditions", w.Pos(ifi.Pos()), s, "the heartbeat handler branches on "+s+" (heartbeats must be answered before and after association)")
 		}
 		ruleC12HbSignal(w, r, hbHandler, "R12.5")
@@ -1235,7 +1260,13 @@ func ruleC12More(w *World, r *Report) {
 func ruleC12HbSignal(w *World, r *Report, hbHandler *ssa.Function, rule string) {
 	hn := w.FuncName(hbHandler)
 	sig := 0
-	allInstrs(hbHandler, func(i ssa.Instruction) {
+	// the handler itself and the function literals it defines (the signal may sit in a local helper literal)
+	both := func(fn func(i ssa.Instruction)) {
+		for _, g := range withClosures(hbHandler) {
+			allInstrs(g, fn)
+		}
+	}
+	both(func(i ssa.Instruction) {
 		if sel, ok := i.(*ssa.Select); ok {
 			for _, st := range sel.States {
 				if st.Dir == 1 && strings.HasSuffix(symOf(st.Chan).String(), "PFCPConn.hbReset") {
